@@ -4,8 +4,8 @@
    add / re-add / remove / pop / peek / empty / clear / iter starting from TaskQueue(). *)
 From Coq Require Import QArith ZArith List Bool Arith Permutation Sorting.
 Import ListNotations.
-Require Import SC3.model.TaskQ.
-Require Import SC3.proofs.C09_order SC3.proofs.C09_refine SC3.proofs.C09_corollaries.
+Require Import SC3.model.TaskQ SC3.model.ClockSched.
+Require Import SC3.proofs.C09_order SC3.proofs.C09_refine SC3.proofs.C09_corollaries SC3.proofs.C09_sched.
 Local Open Scope nat_scope.
 
 (* --- the representation invariant holds after every history ------------------------- *)
@@ -106,6 +106,53 @@ Theorem iter_is_sorted_contents : forall s, reachable s ->
             /\ forall t, In t (map snd (tq_iter s)) <-> fget t (finder s) <> None.
 Proof. exact R_iter. Qed.
 
+(* --- the clock tasks: ClockScheduler (NRT scheduler of SystemClock / TempoClock / AppClock) ------------
+   Model: SC3.model.ClockSched (add / one iteration of run / retime / reset, line by line, over the
+   TaskQueue model).  [ck ct], [tk ct] = the clock and the task of the ClockTask object [ct] (any functions);
+   [f ct] = what clock.beats2secs(ct.beats) returns during retime (any function);
+   [sreachable] = after ANY history of add, run-iteration, retime, reset, iteration. *)
+Theorem sched_inv_reachable : forall ck tk ops, sinv ck tk (fst (srun ck tk ops sched_init)).
+Proof. exact S_inv. Qed.
+
+(* one pending wake-up per (clock, task); _pending is exactly the queued ClockTasks by key *)
+Theorem sched_one_pending_per_task : forall ck tk s, sreachable ck tk s ->
+  NoDup (map (fun x : Q * task => keyof ck tk (snd x)) (qiter s))
+  /\ forall k ct, pget k (spend s) = Some ct <-> (k = keyof ck tk ct /\ In ct (map snd (qiter s))).
+Proof. exact S_one_pending. Qed.
+
+(* scheduling a (clock, task) again replaces its pending wake-up; the new one is the most recent entry of its time *)
+Theorem sched_resched_replaces_and_is_latest : forall ck tk s time ct, sreachable ck tk s ->
+  let rest := filter (pkey_other ck tk ct) (qiter s) in
+  qiter (sch_add ck tk time ct s) = filter (at_most time) rest ++ (time, ct) :: filter (later_than time) rest.
+Proof. exact S_add. Qed.
+
+(* run(): stops exactly when nothing is pending, otherwise wakes the first entry and only that one *)
+Theorem sched_run_wakes_earliest : forall ck tk s s' r, sreachable ck tk s -> sch_step ck tk s = (s', r) ->
+  match qiter s with
+  | [] => r = RBool true /\ s' = s
+  | x :: rest => r = RItem (fst x) (snd x) /\ qiter s' = rest
+  end.
+Proof. exact S_step. Qed.
+
+(* retime(clock): the other clocks' entries keep times and order; the clock's entries move to their new
+   times and keep their mutual order whenever the new times do not reverse it (beats2secs is monotone) *)
+Theorem sched_retime_keeps_order : forall ck tk s c f, sreachable ck tk s ->
+  filter (fun x => negb (on_clock ck c x)) (qiter (sch_retime ck c f s))
+    = filter (fun x => negb (on_clock ck c x)) (qiter s)
+  /\ (StronglySorted (fun a b : Q * task => (f (snd a) <= f (snd b))%Q) (filter (on_clock ck c) (qiter s)) ->
+      filter (on_clock ck c) (qiter (sch_retime ck c f s))
+        = map (fun x : Q * task => (f (snd x), snd x)) (filter (on_clock ck c) (qiter s))).
+Proof. exact S_retime. Qed.
+
+(* after a wake-up at p1, whatever is scheduled or re-timed at times >= p1, the next wake-up is not earlier *)
+Theorem sched_wakeups_nondecreasing : forall ck tk s s1 p1 t1 ops s3 p2 t2,
+  sreachable ck tk s ->
+  sch_step ck tk s = (s1, RItem p1 t1) ->
+  Forall (sop_at_least p1) ops ->
+  sch_step ck tk (fst (srun ck tk ops s1)) = (s3, RItem p2 t2) ->
+  (p1 <= p2)%Q.
+Proof. exact S_nondecreasing. Qed.
+
 (* --- non-vacuity: the model computes and the hypotheses are met ---------------------------- *)
 Definition ex_hist : list op :=
   [OAdd (1 # 1) 3; OAdd (1 # 2) 4; OAdd (2 # 2) 5; OAdd (1 # 1) 3; ORemove 4;
@@ -164,8 +211,33 @@ Proof.
   split; [apply Permutation_rev |]. split; [intro t; reflexivity | split; reflexivity].
 Qed.
 
+(* scheduler: ClockTasks 1..4; 1 and 3 share (clock 10, task 100); 4 is on clock 11 *)
+Definition ex_ck := assoc_z [(1, 10); (2, 10); (3, 10); (4, 11)]%Z 0%Z.
+Definition ex_tk := assoc_z [(1, 100); (2, 101); (3, 100); (4, 100)]%Z 0%Z.
+Definition ex_sops : list sop := [SAdd (7 # 1) 1; SAdd (4 # 1) 2; SAdd (4 # 1) 3; SAdd (4 # 1) 4]%Z.
+Definition ex_sched : sched := fst (srun ex_ck ex_tk ex_sops sched_init).
+
+Example ex_sched_reachable : sreachable ex_ck ex_tk ex_sched.
+Proof. exists ex_sops. reflexivity. Qed.
+
+(* 3 replaced 1 (same clock and task); retime of clock 10 to second 2 meets its monotonicity hypothesis,
+   keeps 2 before 3 and leaves 4 alone; then run wakes 2, 3, 4 and stops *)
+Example ex_sched_retime :
+  qiter ex_sched = [((4 # 1), 2%Z); ((4 # 1), 3%Z); ((4 # 1), 4%Z)]
+  /\ StronglySorted (fun a b : Q * task => (assoc_q [(2, 2 # 1); (3, 2 # 1)]%Z (snd a) <= assoc_q [(2, 2 # 1); (3, 2 # 1)]%Z (snd b))%Q)
+       (filter (on_clock ex_ck 10%Z) (qiter ex_sched))
+  /\ snd (srun ex_ck ex_tk [SRetime 10%Z [(2, 2 # 1); (3, 2 # 1)]%Z; SIter; SStep; SStep; SStep; SStep] ex_sched)
+     = [RNone; RList [((2 # 1), 2%Z); ((2 # 1), 3%Z); ((4 # 1), 4%Z)];
+        RItem (2 # 1) 2%Z; RItem (2 # 1) 3%Z; RItem (4 # 1) 4%Z; RBool true].
+Proof.
+  split; [vm_compute; reflexivity |]. split; [| vm_compute; reflexivity].
+  vm_compute. repeat constructor; discriminate.
+Qed.
+
 Print Assumptions tq_inv_reachable.
 Print Assumptions tq_refines_spec_any_arrangement.
 Print Assumptions pop_fifo_on_ties.
 Print Assumptions readd_moves_to_new_time_as_latest.
 Print Assumptions peek_large_is_max_live.
+Print Assumptions sched_retime_keeps_order.
+Print Assumptions sched_wakeups_nondecreasing.
